@@ -2,12 +2,12 @@
 # evalall.sh C02 C14 ... : evaluates m1,m2 of each property (outputs from /tmp/wt-<id>-out), prints one summary line each
 for P in "$@"; do
   for m in m1 m2; do
-    D=/tmp/wt-$P-out/$m
-    [ -f $D/patch.diff ] || { echo "$P-$m: no patch"; continue; }
-    out=$(/verif/evalmut.sh $P $D $P-$m 2>&1)
+    D=${MUTROOT:-/tmp/wt}-$P-out/$m
+    [ -f $D/patch.diff ] || { echo "${TAG:-}$P-$m: no patch"; continue; }
+    out=$(/verif/evalmut.sh $P $D ${TAG:-}$P-$m 2>&1)
     conf=$(echo "$out" | grep -E "^confirm:" | head -1)
     code=$(echo "$out" | grep -E "^check exit=" | head -1)
-    viol=$(grep -E "^VIOLATION" -A1 /tmp/evalmut-$P-$m.log 2>/dev/null | sed -n 2p | cut -c1-160)
-    echo "$P-$m: $code | $conf | $viol"
+    viol=$(grep -E "^VIOLATION" -A1 /tmp/evalmut-${TAG:-}$P-$m.log 2>/dev/null | sed -n 2p | cut -c1-160)
+    echo "${TAG:-}$P-$m: $code | $conf | $viol"
   done
 done
